@@ -15,8 +15,9 @@ and vertices: *sound* (nothing violated by more than `eps` is accepted, whicheve
 and *complete* (everything within `eps` is accepted).  Linear / categorical / PWL / KFL statements
 in this file are per unit column; `Props/C12Units.lean` models the layer-level calls on the whole
 units-column kernel (the real reductions over the unit axis) and proves "accepted iff every unit column
-is" (`*_layer_iff`), and that the PWL layer's own evaluation (`keypoints_outputs()` for learned keypoints,
-`call(input_keypoints)` for fixed ones) yields the prefix sums judged here (`pwlLayerOutputs_eq`).
+is" (`*_layer_iff`), and that the PWL layer judges `keypoints_outputs()` = the prefix sums judged here
+(`pwlLayerOutputs_eq`, `keypointsOutputs_eq_pwlOutputs`; `oldCallOutputs_eq`: these are the function's values
+at its keypoints).
 `Props/C12Norm.lean`: the order-2 norm test for every rational kernel (no rational root needed).
 `Props/C12Bridge.lean`: at `eps = 0` the `…OK` predicates are the feasibility predicates of C04/C06/C08.
 -/
